@@ -1314,6 +1314,9 @@ func (w *walker) uninterpreted(s *state, fr *frame, instr ssa.CallInstruction, a
 		if written && i == 0 && (c.Op == "zero" || !readsRecv) {
 			continue // pure destination: fresh object, or a callee that never reads its receiver
 		}
+		if written && i == 0 && a.Op == "&" && len(c.Args) == 0 && c.String() == defaultContent(a.Loc).String() {
+			continue // destination whose previous content is just the initial, never-written memory of a parameter
+		}
 		cargs = append(cargs, c)
 	}
 	// hash.Hash.Sum(b) appends to b: with b = x[:0] the digest lands in x
@@ -1415,6 +1418,24 @@ func (w *walker) invokeWrites(fn *ssa.Function, instr ssa.CallInstruction, commo
 					found = true
 					for i := range sum.Writes {
 						set[i] = true
+					}
+				}
+			}
+		}
+	}
+	if !found {
+		// class-hierarchy fallback: module types implementing the interface
+		if iface, ok := common.Value.Type().Underlying().(*types.Interface); ok {
+			for _, fnc := range w.cfg.P.ModuleFuncs() {
+				if fnc.Name() != common.Method.Name() || fnc.Signature.Recv() == nil {
+					continue
+				}
+				if types.Implements(fnc.Signature.Recv().Type(), iface) {
+					if sum := w.cfg.Mod.Sum[fnc]; sum != nil {
+						found = true
+						for i := range sum.Writes {
+							set[i] = true
+						}
 					}
 				}
 			}
